@@ -566,6 +566,12 @@ class BlockMessageMethodSetByteItem(BlockMessageMethodGetSetByteItemBase):
             # Cast to signed-int if overflows
             # Python dosen't have a type for int8, int16..
             caster = "bp.int{}".format(self.formatter.get_nbits_of_integer(single))
+        if isinstance(single, Enum):
+            # The bits of an enum value arrive in pieces, a partially assembled
+            # value may not be a member of the IntEnum. Accumulate plain integers.
+            type_name = "int"
+            if self.array_depth == 0:
+                left = f"self.{_enum_field_proxy_prefix}{self.message_field_name}"
 
         right = value = f"{type_name}(b)"
 
